@@ -178,6 +178,8 @@ def c06_key(ex):
 
 
 def m_c06(ex):
+    if ex.scn.get('small_population'):
+        return []   # below the documented scale: not claimed by C06
     if encoding_tag(ex) != 'continuous':
         return []   # integer-coded tasks are judged per (optimizer, encoding) pair on the aggregate (mc.props.c06)
     if ex.exc is not None:
@@ -242,6 +244,8 @@ def m_c10(ex):
     if res is None:
         return []
     out, o, seen = [], ex.scn['opt'], set()
+    if ex.scn.get('small_population'):
+        return []
     n = ex.cfg_before['population_size']
     exact = o not in registry.VARIABLE_SIZE and not ex.scn.get('c10_bounds_only')
     if ex.scn.get('odd_population') and o in registry.REGROUPING:
